@@ -1498,7 +1498,32 @@ where
                                         && close.is_prepared_statement()
                                         && !close.anonymous()
                                     {
-                                        self.prepared_statements.remove(&close.name);
+                                        // Parse registers a name as soon as it arrives, Close is only
+                                        // acted on here: if a Parse later in this same batch has already
+                                        // re-prepared the name, it is that new statement the name stands
+                                        // for now and it must stay.
+                                        let reprepared_later = match self
+                                            .prepared_statements
+                                            .get(&close.name)
+                                        {
+                                            Some((current, _)) => self
+                                                .extended_protocol_data_buffer
+                                                .iter()
+                                                .any(|queued| {
+                                                    matches!(
+                                                        queued,
+                                                        ExtendedProtocolData::Parse {
+                                                            metadata: Some((parse, _)),
+                                                            ..
+                                                        } if Arc::ptr_eq(parse, current)
+                                                    )
+                                                }),
+                                            None => false,
+                                        };
+
+                                        if !reprepared_later {
+                                            self.prepared_statements.remove(&close.name);
+                                        }
 
                                         // Queue up a close complete message to send to the client
                                         self.response_message_queue_buffer.put(close_complete());
